@@ -4,8 +4,9 @@
 From Coq Require Import List ZArith Bool.
 From V Require Import Gen.Params Lib.Hex Wire.Varint Wire.Headers Wire.HeadersProofs
      PktProt.PktNum PktProt.PktNumProofs PktProt.Protect PktProt.ProtectProofs PktProt.ProtectExamples
-     UFrames.Model UFrames.Proofs UFrames.ProofsLength
-     UPacker.Model UPacker.ProofsSize UPacker.ProofsFlight UPacker.ProofsDecrypt UPacker.ProofsRandom UPacker.ProofsWire UPacker.ProofsTop.
+     UFrames.Model UFrames.Proofs UFrames.ProofsLength Wire.FramesBase Wire.Frames
+     PktProt.InitialProtect
+     UPacker.Model UPacker.ProofsSize UPacker.ProofsFlight UPacker.ProofsDecrypt UPacker.ProofsRandom UPacker.ProofsWire UPacker.ProofsInitialKeys UPacker.ProofsFrames UPacker.ProofsTop.
 Import ListNotations.
 Open Scope Z_scope.
 
@@ -151,6 +152,31 @@ Theorem C10_token_fresh_iff : forall ctl prefix tail1 tail2 conf1 conf2,
 Proof. exact t_C10_token_fresh_iff. Qed.
 Print Assumptions C10_token_fresh_iff.
 
+(** The synthesised token ON THE WIRE, for every (ClientTokenLength, ClientTokenPrefix) pair that
+    asks for one: the Initial header carries the varint max(ClientTokenLength, |prefix|), then
+    the whole prefix (never truncated), then bytes of the random source. *)
+Theorem C10_wire_token : forall ver dcid scid ctl prefix tail conf lf pn pnLen,
+  Z.max ctl (Z.of_nat (length prefix)) > 0 ->
+  (Z.to_nat (Z.max ctl (Z.of_nat (length prefix))) - length prefix <= length tail)%nat ->
+  (ver = H_Version1 \/ ver = H_Version2) -> zlen dcid <= 20 -> zlen scid <= 20 -> 0 <= lf <= 16383 -> 1 <= pnLen <= 4 ->
+  Z.max ctl (Z.of_nat (length prefix)) <= maxVarInt8 ->
+  let k := (Z.to_nat (Z.max ctl (Z.of_nat (length prefix))) - length prefix)%nat in
+  exists t, resolveToken None ctl prefix tail conf = Some t /\
+    t = prefix ++ firstn k tail /\ zlen t = Z.max ctl (zlen prefix) /\
+    initialHeaderBytes ver dcid scid t lf pn pnLen
+    = (0, (192 + 16 * type_code ver H_PacketTypeInitial + (pnLen - 1))
+          :: (be 4 ver ++ [zlen dcid] ++ dcid ++ [zlen scid] ++ scid ++
+              vappend (Z.max ctl (zlen prefix)) ++ (prefix ++ firstn k tail) ++ vappend_len lf 2)
+          ++ pn_bytes (Z.to_nat pnLen) pn).
+Proof. exact t_C10_wire_token. Qed.
+Print Assumptions C10_wire_token.
+
+(** e.g. a 3-byte prefix with ClientTokenLength 1 (seeded change C10-e truncated it to 1 byte) *)
+Example C10_wire_token_example :
+  resolveToken None 1 [7; 8; 9] [] None = Some [7; 8; 9] /\ resolveToken None 5 [7; 8; 9] [1; 2; 3] None = Some [7; 8; 9; 1; 2].
+Proof. exact t_C10_wire_token_example. Qed.
+Print Assumptions C10_wire_token_example.
+
 Theorem C10_cid_lengths : forall specScid specDcid drawn,
   dialScidLen specScid = specScid /\ (specDcid > 0 -> dialDcidLen specDcid drawn = specDcid) /\
   (specDcid <= 0 -> dialDcidLen specDcid drawn = drawn).
@@ -213,7 +239,7 @@ Print Assumptions C10_random_reserve_sufficient.
 Theorem C10_random_payload_exact : forall p data base bs us ws bs' us',
   rf_wf p -> 0 <= base -> 0 < rfLen p -> 1 <= minPad p -> base + rfLen p <= maxVarInt8 ->
   0 < zlen data <= maxCryptoData (rfTuple p) base ->
-  build_internal p data base bs us = Ok (ws, bs', us') ->
+  build_internal p data base bs us = UFrames.Model.Ok (ws, bs', us') ->
   zlen (encode ws) = rfLen p /\ minPad p <= wpadbytes ws.
 Proof. exact t_C10_random_payload_exact. Qed.
 Print Assumptions C10_random_payload_exact.
@@ -224,7 +250,7 @@ Print Assumptions C10_random_payload_exact.
 Theorem C10_random_datagram_exact : forall p data base bs us ws bs' us' cl s hdr pnLen udpMin,
   rf_wf p -> 0 <= base -> 0 < rfLen p -> 1 <= minPad p -> base + rfLen p <= maxVarInt8 ->
   0 < zlen data <= maxCryptoData (rfTuple p) base ->
-  build_internal p data base bs us = Ok (ws, bs', us') ->
+  build_internal p data base bs us = UFrames.Model.Ok (ws, bs', us') ->
   (hdr + rfLen p + 16 <= 1452 ->
    appendInitial (cl, 0) hdr pnLen (zlen (encode ws)) udpMin
    = AppOk (pnLen + rfLen p + 16) (hdr + rfLen p + 16)
@@ -237,7 +263,7 @@ Print Assumptions C10_random_datagram_exact.
 Example C10_random_payload_nonvacuous :
   rf_wf ex_p /\ maxCryptoData (rfTuple ex_p) 0 = 1145 /\
   match build_internal ex_p (repeat 7 1145%nat) 0 ex_bs ex_us with
-  | Ok (ws, _, _) => zlen (encode ws) = 1215 /\ wpadbytes ws = 23
+  | UFrames.Model.Ok (ws, _, _) => zlen (encode ws) = 1215 /\ wpadbytes ws = 23
   | _ => False
   end.
 Proof. exact t_C10_random_payload_nonvacuous. Qed.
@@ -476,6 +502,55 @@ Theorem C10_server_reads_back :
         = UOk (192 + 16 * type_code ver H_PacketTypeInitial + (pnLen - 1)) pn pnLen 0 payload.
 Proof. exact t_C10_server_reads_back. Qed.
 Print Assumptions C10_server_reads_back.
+
+(** The same with NO cryptographic hypothesis: the packet protected with the client Initial
+    keys of the connection's first Destination Connection ID for the packet's version (C05's
+    Gallina HKDF-SHA256 key derivation, AES-128-GCM and AES-ECB header protection; the salts and
+    labels are proved to be those of RFC 9001 5.2 / RFC 9369 3.3.1 in C05_initial_keys_rfc).
+    These are the actual datagram bytes: unit upacker compares [initial_protect] of the model's
+    header and the observed payload with the packet the real packer produced, byte for byte,
+    for both versions (WireCase). *)
+Theorem C10_server_reads_back_initial_keys :
+  forall c helloLen plens k pn pnLen h fs lf pk dl ix rp ver (keyDcid dcid scid token payload : list Z) largest,
+    nth_error (flight c helloLen plens) k = Some (DG pn pnLen h fs lf pk dl ix rp) ->
+    (ver = H_Version1 \/ ver = H_Version2) ->
+    zlen dcid = c_dcid c -> zlen scid = c_scid c -> zlen token = c_tokLen c ->
+    zlen dcid <= 20 -> zlen scid <= 20 ->
+    1 <= pnLen <= 4 -> pn < 2 ^ 62 -> 0 <= c_first c ->
+    zlen payload = pk - h - 16 -> payload <> [] -> 4 <= pnLen + zlen payload ->
+    (largest = pn - 1 \/ (largest = -1 /\ pn <= 2 ^ (pnLen * 8) / 2)) ->
+    let v2 := ver =? H_Version2 in
+    let hb := initialHeaderBytes ver dcid scid token lf pn pnLen in
+    let pkt := initial_protect v2 true keyDcid (snd hb) payload pn (Z.to_nat pnLen) in
+    fst hb = 0 /\ zlen (snd hb) = h /\
+    exists hd, parse_header pkt = Some (hd, 0) /\
+      hType hd = H_PacketTypeInitial /\ hVersion hd = ver /\ hDst hd = dcid /\ hSrc hd = scid /\
+      hToken hd = token /\ hLength hd = lf /\ hParsedLen hd = h - pnLen /\
+      zlen pkt = hParsedLen hd + hLength hd /\
+      initial_unprotect v2 true keyDcid (Z.to_nat (hParsedLen hd)) largest pkt
+      = UOk (192 + 16 * type_code ver H_PacketTypeInitial + (pnLen - 1)) pn pnLen 0 payload.
+Proof. exact t_C10_server_reads_back_initial_keys. Qed.
+Print Assumptions C10_server_reads_back_initial_keys.
+
+(** ... and the frames inside.  The payload of a pass-through datagram (nil / empty QUICFrames
+    builder) is, byte for byte, the CRYPTO frames the packer popped -- C08's CRYPTO codec over
+    the ClientHello bytes of their ranges -- followed by the exact-size PADDING (tied by
+    PayloadCase); a server that parses it frame by frame at the Initial level with C08's frame
+    parser (skipping PADDING, stopping at the end of the packet) reads exactly those CRYPTO
+    frames, offsets and stream bytes. *)
+Theorem C10_server_parses_passthrough : forall (c : Frames.cfg) data frames pad,
+  Forall (fun f => 0 <= fst f <= maxVarInt8 /\ 0 <= snd f /\ fst f + snd f <= zlen data /\ snd f <= maxVarInt8) frames ->
+  parseAll (S (length frames)) c W_EncryptionInitial (passPayload data frames pad)
+  = Some (map (fun f => FramesBase.FCrypto (fst f) (zslice data (fst f) (snd f))) frames).
+Proof. exact t_C10_server_parses_passthrough. Qed.
+Print Assumptions C10_server_parses_passthrough.
+
+Example C10_server_parses_passthrough_example :
+  passPayload [10; 11; 12; 13; 14] [(0, 2); (2, 3)] 2 = [6; 0; 2; 10; 11; 6; 2; 3; 12; 13; 14; 0; 0] /\
+  parseAll 3 (Cfg false false false 3) W_EncryptionInitial (passPayload [10; 11; 12; 13; 14] [(0, 2); (2, 3)] 2)
+  = Some [FramesBase.FCrypto 0 [10; 11]; FramesBase.FCrypto 2 [12; 13; 14]].
+Proof. exact t_C10_server_parses_passthrough_example. Qed.
+Print Assumptions C10_server_parses_passthrough_example.
 
 (** Non-vacuity: the hypotheses hold for the first packet of a concrete flight (nil builder,
     8-byte DCID, no token, 1165 payload bytes) with C05's toy AEAD and mask. *)
